@@ -72,7 +72,8 @@ Fnv32(s) == FnvRange(FnvOffset, s, 1, Len(s))   \* s: sequence of bytes 0..255
 Hash(s)  == LET h == Fnv32(s) IN (h[2] ^^ h[1]) % NumHash     \* (h ^ h>>16) % 512
 
 (* ---- counter names --------------------------------------------------------*)
-(* A name is [id, pre, lines]: `pre` is the text before the first newline,     *)
+(* A name is [id, pre, preDitto, lines]: `pre` is the text before the first    *)
+(* newline (preDitto: a stack counter whose prefix itself reads `".x`),         *)
 (* `lines` the following lines, each [p, f] = import path and the rest after   *)
 (* the last dot.  Texts are opaque identifiers >= 1.  p = Ditto is the ditto   *)
 (* mark `"` (same import path as the frame above), p = NoDot a line without a  *)
